@@ -39,6 +39,11 @@ def funcs_for(kind, case, rng):
         mk["stddev"] = lambda: xfuncs.xfunc_stddev(fa, w, ign, float("nan"))
         if case["K"] is None:
             mk["max"] = lambda: xfuncs.xfunc_op_base(fa, "max", ign, float("nan")) if hasattr(xfuncs, "xfunc_op_base") else None
+        # the per-cell statistics go through the row-mask generator of the array cube
+        mk["quantile"] = lambda: xfuncs.xfunc_quantile(fa, 0.5, w, ign, float("nan"))
+        if case["K"] is not None and case["K"] >= 2:
+            mk["covariance"] = lambda: xfuncs.xfunc_covariance(fa, w, ign, float("nan"))
+            mk["corrcoef"] = lambda: xfuncs.xfunc_corrcoef(fa, None, ign, float("nan"))
     mk["count_unweighted"] = lambda: getattr(mod, pre + "count")(None, None, ign, float("nan"))
     names = sorted(mk) if rng.random() < 0.7 else rng.sample(sorted(mk), rng.randrange(1, len(mk) + 1))
     out = []
@@ -108,8 +113,23 @@ def views_check(ctx, kind, case, desc):
 
 def run(ctx):
     core.load_catii()
-    for _ in range(ctx.n(5, 40)):
-        case = c13.gen_multi(ctx.rng)
+    templates = [lambda c: len(c["dense"]) >= 3 and c["dense"][0].ndim >= 2,     # >=3 dims, extra axes on the FIRST one
+                 lambda c: len(c["dense"]) >= 2 and c["dense"][-1].ndim >= 2,    # extra axes on the last one
+                 lambda c: sum(1 for d in c["dense"] if d.ndim >= 2) >= 2,       # two dims with extra axes
+                 lambda c: True]
+    for it in range(ctx.n(8, 60)):
+        want = templates[it % len(templates)]
+        for _try in range(300):                    # pooling engages for more than two sub-cubes
+            case = c13.gen_multi(ctx.rng)
+            scaff = [e for d in case["dense"] for e in d.shape[1:]]
+            if 3 <= (int(np.prod(scaff)) if scaff else 1) <= 12 and want(case):
+                break
+        ctx.hit("template:%d" % (it % len(templates)))
+        if it % 2 == 1 and case["K"] is None:      # every other case has a several-column fact
+            N = case["N"]
+            case["K"] = 2
+            case["fact_vals"] = np.array([A.dyadic(ctx.rng) for _ in range(N * 2)]).reshape(N, 2)
+            case["fact_valid"] = np.array([ctx.rng.random() < 0.8 for _ in range(N * 2)], dtype=bool).reshape(N, 2)
         scaff = [e for d in case["dense"] for e in d.shape[1:]]
         nsub = int(np.prod(scaff)) if scaff else 1
         if nsub <= 2:
@@ -131,8 +151,8 @@ def run(ctx):
             else:
                 for s in range(4):
                     schedules.append(("permuted", P.PermutedPool(ctx.rng.randrange(10**6))))
-            for s in range(4 if ctx.scale == 1 else 20):
-                schedules.append(("seeded-interleaving", P.SeededInterleavingPool(ctx.rng.randrange(10**6))))
+            for s in range((48 if it % len(templates) == 0 else 16) if ctx.scale == 1 else 80):
+                schedules.append(("seeded-interleaving", P.SeededInterleavingPool(ctx.rng.randrange(10**6), ctx.rng.choice([0.1, 0.35, 0.7]))))
             sizes = [1, 3, 16] if ctx.scale == 1 else list(range(1, 17))
             for ps in sizes:
                 schedules.append(("threadpool-%d" % ps, ps))
@@ -183,6 +203,12 @@ def funcs_for_same(kind, case, fs):
             out.append((n, getattr(mod, pre + "sum")(fa, w, ign, (0, False))))
         elif n == "stddev":
             out.append((n, xfuncs.xfunc_stddev(fa, w, ign, float("nan"))))
+        elif n == "quantile":
+            out.append((n, xfuncs.xfunc_quantile(fa, 0.5, w, ign, float("nan"))))
+        elif n == "covariance":
+            out.append((n, xfuncs.xfunc_covariance(fa, w, ign, float("nan"))))
+        elif n == "corrcoef":
+            out.append((n, xfuncs.xfunc_corrcoef(fa, None, ign, float("nan"))))
         else:
             out.append((n, getattr(mod, pre + n)(fa, w, ign, float("nan"))))
     return out
